@@ -206,6 +206,11 @@ def py_check(case, obs):
     return dict(s_ok=not why, why='; '.join(why))
 
 
+def translate():
+    from harness import gen_times
+    return gen_times.translate()
+
+
 def nontrivial(case, obs):
     o = obs.get('win', {})
     return 'raises' not in o and 'dims' in o and o['dims'] != [case['nt'], case['nl'], case['nr'], case['nc']]
@@ -219,14 +224,16 @@ def shrink(case):
             yield dict(case, win=w)
 
 
-LEVEL_TEXT = ('Theorems (Props/C11.v, 6, all closed under the global context) over Model/IoapiGeo.v: for every axis length, every int '
+LEVEL_TEXT = ('Theorems (Props/C11.v, 9, all closed under the global context) over Model/IoapiGeo.v: for every axis length, every int '
               '(positive or negative) and every unit-stride slice, whenever subsetting returns the window lies inside the axis '
               '(C11_window_in_axis, C11_negative_int), every retained cell keeps its edge coordinates for any origin and cell size '
               '(C11_cell_coords_preserved), the level edges are the matching sub-range (C11_vglvls_subrange), the decoded times are the '
               'same sub-range (C11_window_times_subrange); the recomputed SDATE/STIME/TSTEP give every retained step its source instant '
               'across day/year boundaries for every step length incl. >= 24 h (C11_start_step_preserved, full strength on the proved '
               'calendar inverses of Base/Calendar.v; holds for the code repaired by fixes/C11-slice-tstep-ge-24h.patch). '
-              'Combined windows are the product of the per-dimension updates (C11_combined_window_inhabited). '
+              'Combined windows are the product of the per-dimension updates (C11_combined_window). '
+              'Tie T: the TSTEP expression of sliceDimensions is regenerated from the source on every run (coq/Gen/Times.v slice_tstep) '
+              'and proved to be HHHMMSS of the step (C11_gen_slice_tstep, C11_gen_slice_time_uses). '
               'Tie H: ioapi_base.sliceDimensions vs the model on every generated case incl. raised errors.')
 LEVEL_NOTE = ('Trusted: Coq kernel + vm_compute; the harness; exactness of binary64/binary32 on the generated dyadic coordinates; '
               'the retained data cells themselves are only observed (C02 models them).')
